@@ -90,6 +90,7 @@ void harness(void) {
 #elif defined(H_ADDMUL_M4RM)
   VP_ASSUME(a.ncols != b.nrows || c.nrows != a.nrows || c.ncols != b.ncols);
   VP_ASSUME(c.nrows > 0 && c.ncols > 0);   /* positive dimensions: the documented domain (an empty C returns early, touching nothing) */
+  VP_CANARY();
   mzd_addmul_m4rm(&c, &a, &b, in_k);
   MUST_NOT_RETURN("mzd_addmul_m4rm");
 #elif defined(H_MUL)
